@@ -129,3 +129,57 @@ Proof.
     rewrite firstn_all2 by assumption. reflexivity.
   - unfold zlen in L. rewrite firstn_all2 by lia. reflexivity.
 Qed.
+
+(* ------------------------------------------------------------------ all-default structs *)
+Definition all_cfixed (fx : cfix) : Prop :=
+  cx_complist fx = true /\ cx_bitpad fx = true /\ cx_farnull fx = true /\
+  fx_depth (cx_rd fx) = true /\ fx_upgrade (cx_rd fx) = true /\ fx_bit (cx_rd fx) = true.
+
+(* fillCanonicalStruct into a zero-sized destination copies nothing and visits no pointer *)
+Lemma fill_zero c fx f w dst s d m' :
+  p_size dst = mkOS 0 0 ->
+  slice (dst_seg w dst) (p_off dst) 0 = Ok [] ->
+  slice (src_seg w s) (p_off s) (DataSize (p_size s)) = Ok d ->
+  seg_write (w_dst w) (p_seg dst) (p_off dst) [] = Ok m' ->
+  fill_canonical c fx (S f) w dst s = KOk (w_set_dst w m').
+Proof.
+  intros Hz S1 S2 Wr. cbn [fill_canonical]. rewrite Hz. cbn [DataSize PointerCount]. rewrite S1, S2.
+  cbn [of_res kbind length Nat.min firstn]. rewrite Wr. cbn [lift0 bind of_res kbind Z.to_nat iota seq map kfold].
+  reflexivity.
+Qed.
+
+Definition empty_struct_msg : list Z := le_encode 8 (struct_word (-1) 0 0).
+
+Theorem canon_m_default_struct_partial : forall c fx fuel m rl s v,
+  cfg_strict c = true -> all_cfixed fx -> msg_ok m -> wf_ptr m s ->
+  p_valid s = true -> p_kind s = KStruct -> DataSize (p_size s) mod 8 = 0 ->
+  den true m 0 [] s v ->
+  (exists ws vs, v = VStruct ws vs /\ all_zero ws = true /\ forallb is_null vs = true) ->
+  canonicalize c fx (S fuel) m rl s = (KOk empty_struct_msg, rl) /\ canon v = Some empty_struct_msg.
+Proof.
+  intros c fx fuel m rl s v Hs (_ & _ & Hfn & _) Hm Hwf Hv Hk Hal D (ws & vs & -> & Hz & Hn).
+  destruct (canonicalStructSize_spec m 0 [] s _ Hm Hwf Hv Hk Hal D) as (ws' & vs' & E & Hcss).
+  inversion E; subst ws' vs'; clear E.
+  rewrite (strip0_all_zero ws Hz) in Hcss.
+  assert (Hsn : stripN vs = []).
+  { clear -Hn. induction vs as [|y r IH]; [reflexivity|]. cbn [forallb] in Hn. apply andb_prop in Hn. destruct Hn as [H1 H2].
+    cbn [stripN]. rewrite (IH H2), H1. reflexivity. }
+  rewrite Hsn in Hcss. change (8 * zlen (@nil Z)) with 0 in Hcss. change (zlen (@nil value)) with 0 in Hcss.
+  destruct (den_struct_inv _ _ _ _ _ _ D Hv Hk) as (d & vs2 & _ & _ & Sl & _ & _).
+  split.
+  - unfold canonicalize.
+    replace (new_message ASingle [] 0) with (Ok (mkBM ASingle [mkBS (repeat 0 8%nat) 1024] [] 0)) by (vm_compute; reflexivity).
+    rewrite Hv. cbn [negb]. cbv zeta. rewrite Hfn, Hs, Hcss. cbn [of_res kbind].
+    set (m0 := mkBM ASingle [mkBS (repeat 0 8%nat) 1024] [] 0).
+    set (root := mkPtr true 0 8 0 (mkOS 0 0) maxDepth KStruct false false false).
+    replace (lift (mkW m0 m rl) (newStruct m0 0 (mkOS 0 0))) with (Ok (mkW m0 m rl, root)) by (vm_compute; reflexivity).
+    cbn [of_res kbind].
+    set (m1 := mkBM ASingle [mkBS (le_encode 8 (struct_word (-1) 0 0)) 1024] [] 0).
+    replace (set_root 4 (mkW m0 m rl) InDst root) with (Ok (mkW m1 m rl)) by (vm_compute; reflexivity).
+    cbn [of_res kbind].
+    replace (set_root 4 (mkW m1 m rl) InDst root) with (Ok (mkW m1 m rl)) by (vm_compute; reflexivity).
+    cbn [of_res kbind].
+    rewrite (fill_zero c fx fuel (mkW m1 m rl) root s d m1) by (first [exact Sl | reflexivity]).
+    reflexivity.
+  - unfold canon, canon_words. cbn [norm]. rewrite (strip0_all_zero ws Hz), (stripN_all_null vs Hn). vm_compute. reflexivity.
+Qed.
